@@ -187,6 +187,8 @@ def _ctor(ck, prog):
           expected="self.len = len(<validated word>)", found=sorted(stored.get("len") or []), slot="self.len", where=f.loc())
     # (3) charge pattern derives from self.seq / self.len  (facts.charge_map already requires the loop shape)
     cmap, _, loop = facts.charge_map(prog)
+    for where_, cond_, val_ in facts.ANOMALIES:
+        ck.ob("DEP", construct, False, expected="object state derives from the normalised word alone", found={"when": cond_, "charge pattern": val_}, slot="chargePattern-path", where=where_)
     reads = {unparse(n) for n in ast.walk(loop) if isinstance(n, ast.Attribute) and is_self_attr(n) and isinstance(n.ctx, ast.Load)}
     ck.ob("DEP", construct, reads <= {"self.seq", "self.len"} and "self.seq" in reads,
           expected="charge pattern built from self.seq over range(self.len)", found=sorted(reads), slot="chargePattern", where=f.loc(loop))
@@ -245,6 +247,17 @@ def _sp_init(ck, prog):
     ctor = [n for n in ast.walk(f.node) if isinstance(n, ast.Call) and prog.class_of_ctor(f.mod, n) == "Sequence" and n.args
             and isinstance(n.args[0], ast.Name) and n.args[0].id == "sequence"]
     ck.shape(len(ctor) == 1, "SequenceParameters.__init__: one Sequence(sequence, ...) construction", f.loc())
+    # the caller's object itself must reach the constructor (whose first step is the type check): no rebinding of the parameter on the way
+    reb = [n for n in ast.walk(f.node) if isinstance(n, (ast.Assign, ast.AugAssign)) and any(isinstance(x, ast.Name) and x.id == "sequence" and isinstance(x.ctx, ast.Store)
+                                                                                            for t in (n.targets if isinstance(n, ast.Assign) else [n.target]) for x in ast.walk(t))]
+    for n in reb:
+        val = n.value
+        conv = isinstance(val, ast.Call) and getattr(val.func, "id", "") in ("str", "repr", "format") or isinstance(val, ast.JoinedStr) \
+            or (isinstance(val, ast.Call) and isinstance(val.func, ast.Attribute) and val.func.attr in ("format", "join", "decode"))
+        if not conv:
+            continue          # some other rebinding (the file branch reading the file, say): judged by the branch rules below
+        ck.ob("ORDER-typecheck", construct, False, expected="the object the caller passed reaches Sequence(...), whose type check rejects anything that is not a string",
+              found=unparse(n), slot="converted-before-typecheck", where=f.loc(n), note="after str(x) every object is a string: None, numbers and lists are no longer rejected for their type")
     callee, b = bind.bind(prog, f, ctor[0])
     v = b.get("validateSeq")
     ck.ob("BIND", construct, v is not None and isinstance(v, ast.Constant) and v.value is True, expected="Sequence(sequence, validateSeq=True)", found=unparse(ctor[0]),
